@@ -121,4 +121,70 @@ MUTANTS = [
     ("C10-int-seed-offset", "liesel/goose/builder.py",
      "            keys = jax.random.split(jax.random.PRNGKey(seed), 3)\n",
      "            keys = jax.random.split(jax.random.PRNGKey(seed), 4)[1:]\n"),
+    # ------------------------------------------------------------------ C16
+    ("C16-divisibility-required-for-warmup-too", "liesel/goose/epoch.py",
+     """            if config.type == EpochType.POSTERIOR:
+                if config.duration % config.thinning != 0:
+                    raise RuntimeError("Duration must be a multiple of thinning")
+""",
+     """            if config.duration % config.thinning != 0:
+                raise RuntimeError("Duration must be a multiple of thinning")
+"""),
+    ("C16-posterior-divisibility-dropped", "liesel/goose/epoch.py",
+     """            if config.type == EpochType.POSTERIOR:
+                if config.duration % config.thinning != 0:
+                    raise RuntimeError("Duration must be a multiple of thinning")
+""", ""),
+    ("C16-warmup-after-posterior-checks-first-config", "liesel/goose/epoch.py",
+     "            and self._configs[-1].type == EpochType.POSTERIOR\n",
+     "            and self._configs[0].type == EpochType.POSTERIOR\n"),
+    ("C16-start-time-not-accumulated", "liesel/goose/epoch.py",
+     "            self._next_start_time += config.duration\n",
+     "            self._next_start_time = config.duration\n"),
+    ("C16-nth-epoch-from-config-count", "liesel/goose/epoch.py",
+     "            state = config.to_state(self._next_epoch_ptr, start_time)\n",
+     "            state = config.to_state(len(self._configs) - 1, start_time)\n"),
+    ("C16-thinning-equal-duration-rejected", "liesel/goose/epoch.py",
+     "            if config.duration < config.thinning:\n",
+     "            if config.duration <= config.thinning:\n"),
+    ("C16-stan-term-forgotten", "liesel/goose/warmup.py",
+     "    time_left = warmup_duration - init_duration - term_duration\n",
+     "    time_left = warmup_duration - init_duration\n"),
+    ("C16-stan-window-condition-2x", "liesel/goose/warmup.py",
+     "    while 3 * this_time <= time_left:\n", "    while 2 * this_time <= time_left:\n"),
+    ("C16-stan-min-warmup-off-by-one", "liesel/goose/warmup.py",
+     "    if warmup_duration < init_duration + term_duration + base_duration:\n",
+     "    if warmup_duration <= init_duration + term_duration + base_duration:\n"),
+    ("C16-builder-chunk-from-posterior-only", "liesel/goose/builder.py",
+     "        durations = [e.duration for e in epochs[1:]]\n",
+     "        durations = [e.duration for e in epochs[-1:]]\n"),
+    # ------------------------------------------------------------------ C19
+    ("C19-error-log-mask-all-chains", "liesel/goose/engine.py",
+     "            mask = np.any(tis[ker_name].error_code != 0, axis=0)\n",
+     "            mask = np.all(tis[ker_name].error_code != 0, axis=0)\n"),
+    ("C19-posterior-counts-from-overall-log", "liesel/goose/summary_m.py",
+     "            kel_post = posterior_error_log_unwrapped[kel.kernel_ident]\n",
+     "            kel_post = kel\n"),
+    ("C19-warmup-count-is-total", "liesel/goose/summary_m.py",
+     '        df["warmup"] = df["total"] - df["posterior"]\n', '        df["warmup"] = df["total"]\n'),
+    ("C19-warmup-size-includes-initial-epoch", "liesel/goose/summary_m.py",
+     "            [epoch.duration for epoch in epochs if epoch.type.is_warmup(epoch.type)]\n",
+     "            [epoch.duration for epoch in epochs if epoch.type != 4]\n"),
+    ("C19-error-message-of-wrong-code", "liesel/goose/summary_m.py",
+     '                "", lambda krn_cls: krn_cls.error_book[ec]  # type: ignore\n',
+     '                "", lambda krn_cls: krn_cls.error_book[max(counter_dict)]  # type: ignore\n'),
+    ("C19-posterior-error-log-includes-burnin", "liesel/goose/engine.py",
+     """            opt = self.transition_infos.combine_filtered(
+                lambda config: config.type == EpochType.POSTERIOR
+            )
+            if opt.is_none():""",
+     """            opt = self.transition_infos.combine_filtered(
+                lambda config: config.type >= EpochType.BURNIN
+            )
+            if opt.is_none():"""),
+    ("C19-arviz-warmup-includes-initial-values", "liesel/experimental/arviz.py",
+     "            lambda ec: ec.type.is_warmup(ec.type)\n", "            lambda ec: ec.type != 4\n"),
+    ("C19-error-codes-counted-over-flattened-log", "liesel/goose/summary_m.py",
+     "            occurences_per_chain = np.sum(kel.error_codes == ec, axis=1)\n            counter_dict[ec] = occurences_per_chain\n",
+     "            occurences_per_chain = np.sum(kel.error_codes == ec, axis=1)\n            counter_dict[ec] = np.sort(occurences_per_chain)[::-1]\n"),
 ]
